@@ -1,5 +1,5 @@
 // auto-generated: "lalrpop 0.23.1"
-// sha3: fa4a870fc1a115da0698831e36c42b39f331682807d72000d49df593733d1847
+// sha3: 74781813449590b4ee733c83224a25b69091276c23669ae235883fa41e84bbba
 use crate::rt::*;
 #[allow(unused_extern_crates)]
 extern crate lalrpop_util as __lalrpop_util;
@@ -10,7 +10,7 @@ extern crate alloc;
 
 #[rustfmt::skip]
 #[allow(explicit_outlives_requirements, non_snake_case, non_camel_case_types, unused_mut, unused_variables, unused_imports, unused_parens, clippy::needless_lifetimes, clippy::type_complexity, clippy::needless_return, clippy::too_many_arguments, clippy::match_single_binding, clippy::clone_on_copy, clippy::unit_arg)]
-mod __parse__S {
+mod __parse__E {
 
     use crate::rt::*;
     #[allow(unused_extern_crates)]
@@ -29,38 +29,32 @@ mod __parse__S {
     }
     const __ACTION: &[i8] = &[
         // State 0
-        8, 9, 0, 4,
+        0, 0, 2, 0, 8,
         // State 1
-        8, 9, 0, 0,
+        0, 0, 2, 0, 8,
         // State 2
-        8, 9, 0, 0,
+        0, 0, 2, 0, 8,
         // State 3
-        8, 9, 0, 0,
+        0, 0, 2, 0, 8,
         // State 4
-        8, 9, 0, 0,
+        3, 0, 0, 0, 0,
         // State 5
-        0, 0, 0, 0,
+        -8, -8, 0, -8, 0,
         // State 6
-        0, 0, 5, 0,
+        -4, 4, 0, -4, 0,
         // State 7
-        0, 12, 0, 0,
+        -6, -6, 0, -6, 0,
         // State 8
-        -8, -8, -8, -8,
+        3, 0, 0, 12, 0,
         // State 9
-        0, 0, 0, 14,
+        -3, 4, 0, -3, 0,
         // State 10
-        -6, -6, -6, -6,
+        -7, -7, 0, -7, 0,
         // State 11
-        -7, -7, -7, -7,
-        // State 12
-        0, 0, 0, 0,
-        // State 13
-        0, 0, 0, 0,
-        // State 14
-        -5, -5, 0, -5,
+        -5, -5, 0, -5, 0,
     ];
     fn __action(state: i8, integer: usize) -> i8 {
-        __ACTION[(state as usize) * 4 + integer]
+        __ACTION[(state as usize) * 5 + integer]
     }
     const __EOF_ACTION: &[i8] = &[
         // State 0
@@ -72,53 +66,46 @@ mod __parse__S {
         // State 3
         0,
         // State 4
-        0,
-        // State 5
         -9,
-        // State 6
-        0,
-        // State 7
-        0,
-        // State 8
+        // State 5
         -8,
-        // State 9
-        0,
-        // State 10
-        -6,
-        // State 11
-        -7,
-        // State 12
+        // State 6
         -4,
-        // State 13
+        // State 7
+        -6,
+        // State 8
+        0,
+        // State 9
         -3,
-        // State 14
+        // State 10
+        -7,
+        // State 11
         -5,
     ];
     fn __goto(state: i8, nt: usize) -> i8 {
         match nt {
-            2 => 5,
+            2 => match state {
+                1 => 8,
+                _ => 4,
+            },
             3 => match state {
-                1 => 9,
-                3 => 12,
-                _ => 1,
+                3 => 10,
+                _ => 5,
             },
             4 => match state {
-                4 => 14,
+                2 => 9,
                 _ => 6,
-            },
-            5 => match state {
-                2 => 10,
-                _ => 2,
             },
             _ => 0,
         }
     }
     #[allow(clippy::needless_raw_string_hashes)]
     const __TERMINAL: &[&str] = &[
-        r###""a""###,
-        r###""b""###,
-        r###""c""###,
-        r###""d""###,
+        r###""+""###,
+        r###""*""###,
+        r###""(""###,
+        r###"")""###,
+        r###""x""###,
     ];
     fn __expected_tokens(__state: i8) -> alloc::vec::Vec<alloc::string::String> {
         __TERMINAL.iter().enumerate().filter_map(|(index, terminal)| {
@@ -185,7 +172,7 @@ mod __parse__S {
 
         #[inline]
         fn error_action(&self, state: i8) -> i8 {
-            __action(state, 4 - 1)
+            __action(state, 5 - 1)
         }
 
         #[inline]
@@ -255,6 +242,7 @@ mod __parse__S {
             Tok('b', _, _, _) if true => Some(1),
             Tok('c', _, _, _) if true => Some(2),
             Tok('d', _, _, _) if true => Some(3),
+            Tok('e', _, _, _) if true => Some(4),
             _ => None,
         }
     }
@@ -266,7 +254,7 @@ mod __parse__S {
     ) -> __Symbol<>
     {
         #[allow(clippy::manual_range_patterns)]match __token_index {
-            0 | 1 | 2 | 3 => __Symbol::Variant0(__token),
+            0 | 1 | 2 | 3 | 4 => __Symbol::Variant0(__token),
             _ => unreachable!(),
         }
     }
@@ -297,7 +285,7 @@ mod __parse__S {
             }
             3 => {
                 __state_machine::SimulatedReduce::Reduce {
-                    states_to_pop: 2,
+                    states_to_pop: 1,
                     nonterminal_produced: 2,
                 }
             }
@@ -309,34 +297,34 @@ mod __parse__S {
             }
             5 => {
                 __state_machine::SimulatedReduce::Reduce {
-                    states_to_pop: 2,
-                    nonterminal_produced: 4,
+                    states_to_pop: 1,
+                    nonterminal_produced: 3,
                 }
             }
             6 => {
                 __state_machine::SimulatedReduce::Reduce {
-                    states_to_pop: 2,
-                    nonterminal_produced: 5,
+                    states_to_pop: 3,
+                    nonterminal_produced: 4,
                 }
             }
             7 => {
                 __state_machine::SimulatedReduce::Reduce {
                     states_to_pop: 1,
-                    nonterminal_produced: 5,
+                    nonterminal_produced: 4,
                 }
             }
             8 => __state_machine::SimulatedReduce::Accept,
             _ => panic!("invalid reduction index {__reduce_index}")
         }
     }
-    pub struct SParser {
+    pub struct EParser {
         _priv: (),
     }
 
-    impl Default for SParser { fn default() -> Self { Self::new() } }
-    impl SParser {
-        pub fn new() -> SParser {
-            SParser {
+    impl Default for EParser { fn default() -> Self { Self::new() } }
+    impl EParser {
+        pub fn new() -> EParser {
+            EParser {
                 _priv: (),
             }
         }
@@ -427,7 +415,7 @@ mod __parse__S {
                 __reduce7(__lookahead_start, __symbols, core::marker::PhantomData::<()>)
             }
             8 => {
-                // __S = S => ActionFn(0);
+                // __E = E => ActionFn(0);
                 let __sym0 = __pop_Variant2(__symbols);
                 let __start = __sym0.0.clone();
                 let __end = __sym0.2.clone();
@@ -512,10 +500,10 @@ mod __parse__S {
         _: core::marker::PhantomData<()>,
     ) -> (usize, usize)
     {
-        // S = X, X, "d" => ActionFn(15);
+        // E = E, "+", T => ActionFn(15);
         assert!(__symbols.len() >= 3);
-        let __sym2 = __pop_Variant0(__symbols);
-        let __sym1 = __pop_Variant2(__symbols);
+        let __sym2 = __pop_Variant2(__symbols);
+        let __sym1 = __pop_Variant0(__symbols);
         let __sym0 = __pop_Variant2(__symbols);
         let __start = __sym0.0.clone();
         let __end = __sym2.2.clone();
@@ -530,15 +518,13 @@ mod __parse__S {
         _: core::marker::PhantomData<()>,
     ) -> (usize, usize)
     {
-        // S = "d", X => ActionFn(16);
-        assert!(__symbols.len() >= 2);
-        let __sym1 = __pop_Variant2(__symbols);
-        let __sym0 = __pop_Variant0(__symbols);
+        // E = T => ActionFn(16);
+        let __sym0 = __pop_Variant2(__symbols);
         let __start = __sym0.0.clone();
-        let __end = __sym1.2.clone();
-        let __nt = super::__action16::<>(__sym0, __sym1);
+        let __end = __sym0.2.clone();
+        let __nt = super::__action16::<>(__sym0);
         __symbols.push((__start, __Symbol::Variant2(__nt), __end));
-        (2, 2)
+        (1, 2)
     }
     fn __reduce4<
     >(
@@ -547,11 +533,11 @@ mod __parse__S {
         _: core::marker::PhantomData<()>,
     ) -> (usize, usize)
     {
-        // X = Y, "c", Y => ActionFn(17);
+        // F = "(", E, ")" => ActionFn(17);
         assert!(__symbols.len() >= 3);
-        let __sym2 = __pop_Variant2(__symbols);
-        let __sym1 = __pop_Variant0(__symbols);
-        let __sym0 = __pop_Variant2(__symbols);
+        let __sym2 = __pop_Variant0(__symbols);
+        let __sym1 = __pop_Variant2(__symbols);
+        let __sym0 = __pop_Variant0(__symbols);
         let __start = __sym0.0.clone();
         let __end = __sym2.2.clone();
         let __nt = super::__action17::<>(__sym0, __sym1, __sym2);
@@ -565,15 +551,13 @@ mod __parse__S {
         _: core::marker::PhantomData<()>,
     ) -> (usize, usize)
     {
-        // Y = Z, Z => ActionFn(18);
-        assert!(__symbols.len() >= 2);
-        let __sym1 = __pop_Variant2(__symbols);
-        let __sym0 = __pop_Variant2(__symbols);
+        // F = "x" => ActionFn(18);
+        let __sym0 = __pop_Variant0(__symbols);
         let __start = __sym0.0.clone();
-        let __end = __sym1.2.clone();
-        let __nt = super::__action18::<>(__sym0, __sym1);
+        let __end = __sym0.2.clone();
+        let __nt = super::__action18::<>(__sym0);
         __symbols.push((__start, __Symbol::Variant2(__nt), __end));
-        (2, 4)
+        (1, 3)
     }
     fn __reduce6<
     >(
@@ -582,15 +566,16 @@ mod __parse__S {
         _: core::marker::PhantomData<()>,
     ) -> (usize, usize)
     {
-        // Z = "a", "b" => ActionFn(19);
-        assert!(__symbols.len() >= 2);
+        // T = T, "*", F => ActionFn(19);
+        assert!(__symbols.len() >= 3);
+        let __sym2 = __pop_Variant2(__symbols);
         let __sym1 = __pop_Variant0(__symbols);
-        let __sym0 = __pop_Variant0(__symbols);
+        let __sym0 = __pop_Variant2(__symbols);
         let __start = __sym0.0.clone();
-        let __end = __sym1.2.clone();
-        let __nt = super::__action19::<>(__sym0, __sym1);
+        let __end = __sym2.2.clone();
+        let __nt = super::__action19::<>(__sym0, __sym1, __sym2);
         __symbols.push((__start, __Symbol::Variant2(__nt), __end));
-        (2, 5)
+        (3, 4)
     }
     fn __reduce7<
     >(
@@ -599,17 +584,17 @@ mod __parse__S {
         _: core::marker::PhantomData<()>,
     ) -> (usize, usize)
     {
-        // Z = "b" => ActionFn(20);
-        let __sym0 = __pop_Variant0(__symbols);
+        // T = F => ActionFn(20);
+        let __sym0 = __pop_Variant2(__symbols);
         let __start = __sym0.0.clone();
         let __end = __sym0.2.clone();
         let __nt = super::__action20::<>(__sym0);
         __symbols.push((__start, __Symbol::Variant2(__nt), __end));
-        (1, 5)
+        (1, 4)
     }
 }
 #[allow(unused_imports)]
-pub use self::__parse__S::SParser;
+pub use self::__parse__E::EParser;
 
 #[allow(clippy::too_many_arguments, clippy::needless_lifetimes, clippy::just_underscores_and_digits, clippy::extra_unused_type_parameters)]
 fn __action0<
@@ -625,24 +610,23 @@ fn __action1<
 >(
     (_, l, _): (i64, i64, i64),
     (_, c0, _): (i64, Tree, i64),
-    (_, c1, _): (i64, Tree, i64),
-    (_, c2, _): (i64, Tok, i64),
+    (_, c1, _): (i64, Tok, i64),
+    (_, c2, _): (i64, Tree, i64),
     (_, r, _): (i64, i64, i64),
 ) -> Tree
 {
-    node("S#0", l, r, vec![Tree::from(c0), Tree::from(c1), Tree::from(c2)])
+    node("E#0", l, r, vec![Tree::from(c0), Tree::from(c1), Tree::from(c2)])
 }
 
 #[allow(clippy::too_many_arguments, clippy::needless_lifetimes, clippy::just_underscores_and_digits, clippy::extra_unused_type_parameters)]
 fn __action2<
 >(
     (_, l, _): (i64, i64, i64),
-    (_, c0, _): (i64, Tok, i64),
-    (_, c1, _): (i64, Tree, i64),
+    (_, c0, _): (i64, Tree, i64),
     (_, r, _): (i64, i64, i64),
 ) -> Tree
 {
-    node("S#1", l, r, vec![Tree::from(c0), Tree::from(c1)])
+    node("E#1", l, r, vec![Tree::from(c0)])
 }
 
 #[allow(clippy::too_many_arguments, clippy::needless_lifetimes, clippy::just_underscores_and_digits, clippy::extra_unused_type_parameters)]
@@ -655,7 +639,7 @@ fn __action3<
     (_, r, _): (i64, i64, i64),
 ) -> Tree
 {
-    node("X#0", l, r, vec![Tree::from(c0), Tree::from(c1), Tree::from(c2)])
+    node("T#0", l, r, vec![Tree::from(c0), Tree::from(c1), Tree::from(c2)])
 }
 
 #[allow(clippy::too_many_arguments, clippy::needless_lifetimes, clippy::just_underscores_and_digits, clippy::extra_unused_type_parameters)]
@@ -663,11 +647,10 @@ fn __action4<
 >(
     (_, l, _): (i64, i64, i64),
     (_, c0, _): (i64, Tree, i64),
-    (_, c1, _): (i64, Tree, i64),
     (_, r, _): (i64, i64, i64),
 ) -> Tree
 {
-    node("Y#0", l, r, vec![Tree::from(c0), Tree::from(c1)])
+    node("T#1", l, r, vec![Tree::from(c0)])
 }
 
 #[allow(clippy::too_many_arguments, clippy::needless_lifetimes, clippy::just_underscores_and_digits, clippy::extra_unused_type_parameters)]
@@ -675,11 +658,12 @@ fn __action5<
 >(
     (_, l, _): (i64, i64, i64),
     (_, c0, _): (i64, Tok, i64),
-    (_, c1, _): (i64, Tok, i64),
+    (_, c1, _): (i64, Tree, i64),
+    (_, c2, _): (i64, Tok, i64),
     (_, r, _): (i64, i64, i64),
 ) -> Tree
 {
-    node("Z#0", l, r, vec![Tree::from(c0), Tree::from(c1)])
+    node("F#0", l, r, vec![Tree::from(c0), Tree::from(c1), Tree::from(c2)])
 }
 
 #[allow(clippy::too_many_arguments, clippy::needless_lifetimes, clippy::just_underscores_and_digits, clippy::extra_unused_type_parameters)]
@@ -690,7 +674,7 @@ fn __action6<
     (_, r, _): (i64, i64, i64),
 ) -> Tree
 {
-    node("Z#1", l, r, vec![Tree::from(c0)])
+    node("F#1", l, r, vec![Tree::from(c0)])
 }
 
 #[allow(clippy::needless_lifetimes, clippy::clone_on_copy)]
@@ -718,8 +702,8 @@ fn __action8<
 fn __action9<
 >(
     __0: (i64, Tree, i64),
-    __1: (i64, Tree, i64),
-    __2: (i64, Tok, i64),
+    __1: (i64, Tok, i64),
+    __2: (i64, Tree, i64),
     __3: (i64, i64, i64),
 ) -> Tree
 {
@@ -743,9 +727,8 @@ fn __action9<
     clippy::just_underscores_and_digits, clippy::clone_on_copy, clippy::unit_arg)]
 fn __action10<
 >(
-    __0: (i64, Tok, i64),
-    __1: (i64, Tree, i64),
-    __2: (i64, i64, i64),
+    __0: (i64, Tree, i64),
+    __1: (i64, i64, i64),
 ) -> Tree
 {
     let __start0 = __0.0.clone();
@@ -759,13 +742,60 @@ fn __action10<
         __temp0,
         __0,
         __1,
-        __2,
     )
 }
 
 #[allow(clippy::too_many_arguments, clippy::needless_lifetimes,
     clippy::just_underscores_and_digits, clippy::clone_on_copy, clippy::unit_arg)]
 fn __action11<
+>(
+    __0: (i64, Tok, i64),
+    __1: (i64, Tree, i64),
+    __2: (i64, Tok, i64),
+    __3: (i64, i64, i64),
+) -> Tree
+{
+    let __start0 = __0.0.clone();
+    let __end0 = __0.0.clone();
+    let __temp0 = __action8(
+        &__start0,
+        &__end0,
+    );
+    let __temp0 = (__start0, __temp0, __end0);
+    __action5(
+        __temp0,
+        __0,
+        __1,
+        __2,
+        __3,
+    )
+}
+
+#[allow(clippy::too_many_arguments, clippy::needless_lifetimes,
+    clippy::just_underscores_and_digits, clippy::clone_on_copy, clippy::unit_arg)]
+fn __action12<
+>(
+    __0: (i64, Tok, i64),
+    __1: (i64, i64, i64),
+) -> Tree
+{
+    let __start0 = __0.0.clone();
+    let __end0 = __0.0.clone();
+    let __temp0 = __action8(
+        &__start0,
+        &__end0,
+    );
+    let __temp0 = (__start0, __temp0, __end0);
+    __action6(
+        __temp0,
+        __0,
+        __1,
+    )
+}
+
+#[allow(clippy::too_many_arguments, clippy::needless_lifetimes,
+    clippy::just_underscores_and_digits, clippy::clone_on_copy, clippy::unit_arg)]
+fn __action13<
 >(
     __0: (i64, Tree, i64),
     __1: (i64, Tok, i64),
@@ -791,11 +821,10 @@ fn __action11<
 
 #[allow(clippy::too_many_arguments, clippy::needless_lifetimes,
     clippy::just_underscores_and_digits, clippy::clone_on_copy, clippy::unit_arg)]
-fn __action12<
+fn __action14<
 >(
     __0: (i64, Tree, i64),
-    __1: (i64, Tree, i64),
-    __2: (i64, i64, i64),
+    __1: (i64, i64, i64),
 ) -> Tree
 {
     let __start0 = __0.0.clone();
@@ -809,53 +838,6 @@ fn __action12<
         __temp0,
         __0,
         __1,
-        __2,
-    )
-}
-
-#[allow(clippy::too_many_arguments, clippy::needless_lifetimes,
-    clippy::just_underscores_and_digits, clippy::clone_on_copy, clippy::unit_arg)]
-fn __action13<
->(
-    __0: (i64, Tok, i64),
-    __1: (i64, Tok, i64),
-    __2: (i64, i64, i64),
-) -> Tree
-{
-    let __start0 = __0.0.clone();
-    let __end0 = __0.0.clone();
-    let __temp0 = __action8(
-        &__start0,
-        &__end0,
-    );
-    let __temp0 = (__start0, __temp0, __end0);
-    __action5(
-        __temp0,
-        __0,
-        __1,
-        __2,
-    )
-}
-
-#[allow(clippy::too_many_arguments, clippy::needless_lifetimes,
-    clippy::just_underscores_and_digits, clippy::clone_on_copy, clippy::unit_arg)]
-fn __action14<
->(
-    __0: (i64, Tok, i64),
-    __1: (i64, i64, i64),
-) -> Tree
-{
-    let __start0 = __0.0.clone();
-    let __end0 = __0.0.clone();
-    let __temp0 = __action8(
-        &__start0,
-        &__end0,
-    );
-    let __temp0 = (__start0, __temp0, __end0);
-    __action6(
-        __temp0,
-        __0,
-        __1,
     )
 }
 
@@ -864,8 +846,8 @@ fn __action14<
 fn __action15<
 >(
     __0: (i64, Tree, i64),
-    __1: (i64, Tree, i64),
-    __2: (i64, Tok, i64),
+    __1: (i64, Tok, i64),
+    __2: (i64, Tree, i64),
 ) -> Tree
 {
     let __start0 = __2.2.clone();
@@ -887,12 +869,11 @@ fn __action15<
     clippy::just_underscores_and_digits, clippy::clone_on_copy, clippy::unit_arg)]
 fn __action16<
 >(
-    __0: (i64, Tok, i64),
-    __1: (i64, Tree, i64),
+    __0: (i64, Tree, i64),
 ) -> Tree
 {
-    let __start0 = __1.2.clone();
-    let __end0 = __1.2.clone();
+    let __start0 = __0.2.clone();
+    let __end0 = __0.2.clone();
     let __temp0 = __action7(
         &__start0,
         &__end0,
@@ -900,7 +881,6 @@ fn __action16<
     let __temp0 = (__start0, __temp0, __end0);
     __action10(
         __0,
-        __1,
         __temp0,
     )
 }
@@ -909,9 +889,9 @@ fn __action16<
     clippy::just_underscores_and_digits, clippy::clone_on_copy, clippy::unit_arg)]
 fn __action17<
 >(
-    __0: (i64, Tree, i64),
-    __1: (i64, Tok, i64),
-    __2: (i64, Tree, i64),
+    __0: (i64, Tok, i64),
+    __1: (i64, Tree, i64),
+    __2: (i64, Tok, i64),
 ) -> Tree
 {
     let __start0 = __2.2.clone();
@@ -933,12 +913,11 @@ fn __action17<
     clippy::just_underscores_and_digits, clippy::clone_on_copy, clippy::unit_arg)]
 fn __action18<
 >(
-    __0: (i64, Tree, i64),
-    __1: (i64, Tree, i64),
+    __0: (i64, Tok, i64),
 ) -> Tree
 {
-    let __start0 = __1.2.clone();
-    let __end0 = __1.2.clone();
+    let __start0 = __0.2.clone();
+    let __end0 = __0.2.clone();
     let __temp0 = __action7(
         &__start0,
         &__end0,
@@ -946,7 +925,6 @@ fn __action18<
     let __temp0 = (__start0, __temp0, __end0);
     __action12(
         __0,
-        __1,
         __temp0,
     )
 }
@@ -955,12 +933,13 @@ fn __action18<
     clippy::just_underscores_and_digits, clippy::clone_on_copy, clippy::unit_arg)]
 fn __action19<
 >(
-    __0: (i64, Tok, i64),
+    __0: (i64, Tree, i64),
     __1: (i64, Tok, i64),
+    __2: (i64, Tree, i64),
 ) -> Tree
 {
-    let __start0 = __1.2.clone();
-    let __end0 = __1.2.clone();
+    let __start0 = __2.2.clone();
+    let __end0 = __2.2.clone();
     let __temp0 = __action7(
         &__start0,
         &__end0,
@@ -969,6 +948,7 @@ fn __action19<
     __action13(
         __0,
         __1,
+        __2,
         __temp0,
     )
 }
@@ -977,7 +957,7 @@ fn __action19<
     clippy::just_underscores_and_digits, clippy::clone_on_copy, clippy::unit_arg)]
 fn __action20<
 >(
-    __0: (i64, Tok, i64),
+    __0: (i64, Tree, i64),
 ) -> Tree
 {
     let __start0 = __0.2.clone();
